@@ -21,6 +21,8 @@ Check(raw) ==
   /\ Assert(ValidRle(n, e), <<"valid", raw, n, e>>)
   /\ Assert(DecodeRle(n, e) = raw, <<"lossless", raw, DecodeRle(n, e)>>)
   /\ Assert(IsNormalized(raw) <=> e = <<>>, <<"is_normalized iff empty rle", raw>>)
+  (* the two ways the specification states run collapsing agree (fold / native vs recursion) *)
+  /\ Assert(Normalize(raw) = NormalizeRec(raw) /\ (IsNormalized(raw) <=> IsNormalizedRec(raw)), <<"NormalizeDefsAgree", raw>>)
   /\ DEEP => Assert(\A raw2 \in Raws : (Normalize(raw2) = n /\ EncodeRle(raw2) = e) => raw2 = raw, <<"canonical / injective", raw>>)
 Next == ~done /\ done' = TRUE /\ r' = r /\ Check(r)
 Spec == Init /\ [][Next]_<<r, done>>
